@@ -66,6 +66,16 @@ func c02Exec(kind string, raw []byte) (*c02Result, error) {
 		}
 		nt := o.Class == "ok" || (o.Class == "err" && !strings.Contains(o.Detail, "argument"))
 		return &c02Result{Class: o.Class, Detail: o.Detail, N: 1, NT: nt}, nil
+	case "op":
+		var c c02OpCase
+		if err := json.Unmarshal(raw, &c); err != nil {
+			return nil, err
+		}
+		o, err := c02RunOp(&c)
+		if err != nil {
+			return nil, err
+		}
+		return &c02Result{Class: o.Class, Detail: o.Detail, N: 1, NT: o.Class == "ok" || o.Class == "err"}, nil
 	case "graph":
 		var g c02GraphCase
 		if err := json.Unmarshal(raw, &g); err != nil {
